@@ -58,8 +58,6 @@ theorem handleAnnounce_unacceptable (p : Port) (s : InstState) (m : Msg) (ab : A
     (hnp : ¬ (p.st.isSlave = true ∧ m.header.src = s.parent.parentPort))
     (hown : p.fml.own = p.id) :
     p.handleAnnounce s m ab = .ok (p, s, []) := by
-  unfold Port.handleAnnounce
-  simp only [hnp, if_false, pure, Except.pure, bind, Except.bind, Bool.false_eq_true]
   have hreg : bmcaRegister p.fml p.cfg.acceptable ⟨m.header, ab⟩ = (p.fml, false) := by
     unfold bmcaRegister
     rw [if_neg]
@@ -67,8 +65,16 @@ theorem handleAnnounce_unacceptable (p : Port) (s : InstState) (m : Msg) (ab : A
     rcases hbad with e | e
     · exact h1 (by rw [hown]; exact e)
     · rw [e] at h2; cases h2
-  rw [hreg]
-  rfl
+  have hupd : p.announceUpdate s m ⟨m.header, ab⟩ = .ok (s, false) := by
+    unfold Port.announceUpdate
+    rw [if_neg hnp]
+  have hr : p.announceRegister m ⟨m.header, ab⟩ = (p, []) := by
+    unfold Port.announceRegister
+    rw [hreg]
+    simp
+  unfold Port.handleAnnounce
+  rw [hupd]
+  simp only [Bool.false_eq_true, if_false, hr]
 
 /-- every port the model creates files its foreign masters under its own identity -/
 def PortOK (p : Port) : Prop := p.fml.own = p.id
@@ -110,12 +116,17 @@ theorem ignored_noop (p : Port) (s : InstState) (data : List UInt8) (ts : Nat) (
 
 /-- a host call that delivers an ignored frame to some port -/
 def IgnoredOp (i : Inst) : Op → Prop
-  | .gen k data => ∃ p, i.ports[k - 1]? = some p ∧ PortOK p ∧ IgnoredFrame p i.st data
-  | .evt k data _ => ∃ p, i.ports[k - 1]? = some p ∧ PortOK p ∧ IgnoredFrame p i.st data
+  | .gen k data => ∃ p, portAt i.ports k = some p ∧ PortOK p ∧ IgnoredFrame p i.st data
+  | .evt k data _ => ∃ p, portAt i.ports k = some p ∧ PortOK p ∧ IgnoredFrame p i.st data
   | _ => False
 
-theorem setPort_same (ports : List Port) (k : Nat) (p : Port) (h : ports[k - 1]? = some p) :
+theorem setPort_same (ports : List Port) (k : Nat) (p : Port) (h0 : portAt ports k = some p) :
     setPort ports k p = ports := by
+  have h : ports[k - 1]? = some p := by
+    unfold portAt at h0
+    split at h0
+    · cases h0
+    · exact h0
   unfold setPort
   apply List.ext_getElem?
   intro j
@@ -128,12 +139,12 @@ theorem step_ignored (i : Inst) (op : Op) (h : IgnoredOp i op) : i.step op = .ok
   cases op with
   | gen k data =>
     obtain ⟨p, hp, hok, hf⟩ := h
-    simp only [Inst.step, hp, (ignored_noop p i.st data 0 hok hf).1, bind, Except.bind, tag, List.map_nil,
-      setPort_same i.ports k p hp]
+    simp only [Inst.step, Inst.portHandler, Inst.withPort, hp, (ignored_noop p i.st data 0 hok hf).1, Except.map, tag,
+      List.map_nil, setPort_same i.ports k p hp]
   | evt k data ts =>
     obtain ⟨p, hp, hok, hf⟩ := h
-    simp only [Inst.step, hp, (ignored_noop p i.st data ts hok hf).2, bind, Except.bind, tag, List.map_nil,
-      setPort_same i.ports k p hp]
+    simp only [Inst.step, Inst.portHandler, Inst.withPort, hp, (ignored_noop p i.st data ts hok hf).2, Except.map, tag,
+      List.map_nil, setPort_same i.ports k p hp]
   | _ => exact absurd h (by simp [IgnoredOp])
 
 /-- run a history; the result is the final state (or the panic) and the concatenated observations
